@@ -4,7 +4,7 @@ P=$1; shift
 cd /repo || exit 2
 if ! git diff --quiet; then echo "/repo dirty, abort"; exit 2; fi
 if ! git apply "$P" 2>/tmp/apply.err; then
-  if ! git apply -3 "$P" 2>>/tmp/apply.err; then echo "PATCH DOES NOT APPLY: $(head -3 /tmp/apply.err)"; git checkout -- . ; exit 3; fi
+  if ! git apply -3 "$P" 2>>/tmp/apply.err; then echo "PATCH DOES NOT APPLY: $(head -3 /tmp/apply.err)"; git -C /repo reset -q --hard HEAD; exit 3; fi
 fi
 cd /verif
 for c in "$@"; do
